@@ -78,6 +78,7 @@ def parseOp : List String → Option Op
   | ["scope", t, i] => do pure (.scope (← natTok t) (← natTok i))
   | ["close", t, j] => do pure (.close (← natTok t) (← natTok j))
   | ["dump", t] => do pure (.dump (← natTok t))
+  | ["conc", t, r] => do pure (.conc (← natTok t) (← natTok r))
   | _ => none
 
 def answers (pool : List Bytes) (c : Chain) : String :=
@@ -94,6 +95,7 @@ def showObs (pool : List Bytes) (st : Store) : Obs → String
   | .span none => "invalid"
   | .scope j id => s!"s{j}=c{id}" ++ answers pool ((st.chain? id).getD [])
   | .stack s => "[" ++ ",".intercalate (s.map fun c => s!"c{c}") ++ "]"
+  | .concOk => "conc=ok"
 
 /-- per-op line: observation, the executing thread's depth and top, how many earlier contexts exist
     (the harness re-queries each of them: `older_unaffected`), and any other thread whose (depth, top) moved -/
